@@ -13,3 +13,5 @@ import PyxisVerif.Props.C12
 #print axioms PyxisVerif.C12.run_total_refuted
 #print axioms PyxisVerif.C12.run_total_partial
 #print axioms PyxisVerif.C12.alloc_only_for_huge_tables
+#print axioms PyxisVerif.C12.parsed_module_bounded
+#print axioms PyxisVerif.C12.text_build_total
